@@ -277,6 +277,10 @@ inline std::unordered_set<void *> &guard_live() { static std::unordered_set<void
 inline long &guard_foreign_frees() { static long n = 0; return n; }
 inline void *guard_malloc(size_t n) { void *p = malloc(n ? n : 1); if (p) guard_live().insert(p); return p; }
 inline void guard_free(void *p) { if (!p) return; if (!guard_live().erase(p)) { guard_foreign_frees()++; return; } free(p); }
+// buffers the library hands to the caller (tokens, JSON text) come from the installed allocator: an application that installed one
+// releases them with its own free
+inline bool &guard_active() { static bool a = false; return a; }
+inline void app_free(void *p) { if (guard_active()) guard_free(p); else free(p); }
 // recycling allocator (installed through jwt_set_alloc by the "same address, other object" checks): a freed block is handed out again,
 // most recently freed first, to the next request of the same size - what a pool allocator or a plain malloc does, and what ASan's
 // quarantine prevents. Freed blocks are filled with 0xDD so that anything still reading them reads rubbish.
